@@ -12,7 +12,7 @@ ALPHA = "abc"
 
 
 class Gram:
-    def __init__(self, gid, rules, root, tags=(), surface=None, alphabet=ALPHA, extra_inputs=(), pre=""):
+    def __init__(self, gid, rules, root, tags=(), surface=None, alphabet=ALPHA, extra_inputs=(), pre="", mustif=()):
         self.gid = gid
         self.rules = rules          # list of (name, c++ expr) in definition order; forward refs allowed through predeclaration
         self.root = root            # c++ expression for the root rule body
@@ -21,6 +21,7 @@ class Gram:
         self.alphabet = alphabet
         self.extra_inputs = list(extra_inputs)
         self.pre = pre              # extra C++ (custom action specialisations) after the rule definitions
+        self.mustif = set(mustif)   # names of rules ("G" = root) marked vh::mustif: the must_if control families ctl4/ctl5 raise from their failure()
 
     def cpp(self):
         ns = "g%d" % self.gid
@@ -29,8 +30,8 @@ class Gram:
             out.append("struct %s;" % n)
         out.append("struct G;")
         for n, e in self.rules:
-            out.append("struct %s : %s, vh::named {};" % (n, e))
-        out.append("struct G : %s, vh::named {};" % self.root)
+            out.append("struct %s : %s, vh::named%s {};" % (n, e, ", vh::mustif" if n in self.mustif else ""))
+        out.append("struct G : %s, vh::named%s {};" % (self.root, ", vh::mustif" if "G" in self.mustif else ""))
         out.append("}")
         if self.pre:
             out.append(self.pre.replace("@NS@", ns))
